@@ -147,6 +147,7 @@ def run_one(args):
                 st_bad.append(problems[0])
             else:
                 st_ok += 1
+    out["first_attempt_unknown"] = getattr(ex, "recovered", [])
     out.update(stats=ex.stats, violations=viols, inconclusive=ex.inconclusive[:20], samples=ex.samples[:3],
                selftest=dict(ok=st_ok, mismatch=st_bad[:3]),
                funcs=sorted(_FUNCS_SEEN - before), wall=time.perf_counter() - t0)
@@ -369,6 +370,9 @@ def main(argv=None):
     if not a.no_evidence and not a.only:
         (VERIF / "evidence").mkdir(exist_ok=True)
         (VERIF / "evidence" / f"{prop}.json").write_text(json.dumps(ev, indent=1, default=str))
+    for r in results:
+        if r.get("first_attempt_unknown"):
+            print("note: first-attempt unknown (retried):", r["harness"], json.dumps(r["cfg"], default=str)[:200], r["first_attempt_unknown"][:3])
     slow = sorted(results, key=lambda r: -r["wall"])[:3]
     print("slowest:", "; ".join(f"{r['harness']} {json.dumps(r['cfg'], default=str)} {r['wall']:.1f}s paths={r['stats'].get('paths')}" for r in slow))
     print(f"{prop} tier={a.tier}: configs={len(results)} paths={tot.get('paths', 0)} obligations={tot.get('obligations', 0)} "
